@@ -16,6 +16,26 @@ PROPS = {
                    "of msg.go (checked against the implementation on every run, not proved equal); harness + upfdrv. WritePacket's socket write is not modelled.",
         assumptions=["payload length + 8 <= 65535 (16-bit length field)", "header form 0x34 as emitted by WritePacket"],
     ),
+    "C19": dict(
+        module="UpfVerif.Props.C19",
+        streams=[dict(name="flags", shards_thorough=16, timeout_thorough=3000)],
+        rule="exhaustive: all 2^16 apply-action words in 1- and 2-octet form, all 2^16 2-octet reporting-trigger words, too-short inputs, "
+             "all 256 volume flag octets x MNOP; 3-octet reporting triggers: all single bits, all pairs, 2^16 random words (quick) / all 2^24 (thorough, 16 shards); "
+             "usage-report trigger and cause mapping: zero, all 32 single bits, all pairs, random words; distinct = distinct input lines",
+        exhaustive_quick=False, exhaustive_thorough=True,
+        trusted_base=["bit tables Spec/TS29244Bits.lean transcribed by hand from TS 29.244 §8.2.26, §8.2.19, §8.2.41, §8.2.13",
+                      "Gen/Consts.lean regenerated from /repo by tools/extract (go/types constant values)",
+                      "model Model/Flags.lean of internal/report/report.go (which accessor tests which constant; the switch of SetReportingTrigger), "
+                      "tied by the exhaustive differential stream 'flags'"],
+        level_text="Kernel-checked theorems (Props/C19.lean) over all octet values: the regenerated constants equal the TS 29.244 bit positions; "
+                   "Apply Action / Reporting Triggers decode (every permitted length), Reporting/Usage-Report-Trigger encode, 3-octet re-encode identity, "
+                   "cause mapping (same name and no other; any non-single-cause word maps to nothing), Volume Measurement SetFlags and IE round trip for every "
+                   "flag subset and all 64-bit counters. Tie: constants regenerated each run (T1) and exhaustive/large differential sweeps on the real accessors (T2); "
+                   "the spec tables are also evaluated directly on the implementation's outputs.",
+        level_note="Trusted: Lean kernel; hand-transcribed spec tables; extractor; the model's accessor-name↦constant table and switch table (checked against the "
+                   "implementation by the sweeps, not proved equal). go-pfcp's NewVolumeMeasurement/NewReportingTriggers are exercised through IE() but not verified beyond the sweep.",
+        assumptions=["little-endian flag words as in report.go", "IE payload octet 5 is the first payload octet"],
+    ),
 }
 
 # properties not claimed yet (kept current; every property has a planned executable model, see DESIGN.md)
